@@ -175,6 +175,30 @@ def run(ctx):
                 if not oracle.close(v, want):
                     ctx.violation("numpy-absent-result-differs", container=name, got=v, reference=want, s1=s1, s2=s2,
                                   settings=dict(dtwmon.settings_key(kw)))
+            # the bounds are NumPy-free too: same value as the reference (and hence as with NumPy present)
+            wlb = kw.get("window")
+            inn_ = oracle.INNER[(kw.get("inner_dist", "squared euclidean"), False)] \
+                if isinstance(kw.get("inner_dist", "squared euclidean"), str) else None
+            if inn_ is not None:
+                want_lb = oracle.ref_lb_keogh(s1, s2, wlb, inn_.dist, inn_.result)
+                want_ub = oracle.ref_ed(s1, s2, inn_.dist, inn_.result)
+                for name, (a, b) in {"list": (list(s1), list(s2)), "tuple": (tuple(s1), tuple(s2)),
+                                     "array": (array.array("d", s1), array.array("d", s2))}.items():
+                    try:
+                        lkw = {k_: v_ for k_, v_ in kw.items() if k_ in ("window", "inner_dist")}
+                        got_lb = float(dtw.lb_keogh(a, b, **lkw))
+                        got_ub = float(dtw.ub_euclidean(a, b, **({"inner_dist": kw["inner_dist"]} if "inner_dist" in kw else {})))
+                    except Exception as e:
+                        ctx.violation("exception", fn="dtw.lb_keogh/ub_euclidean[no numpy]", container=name, error=repr(e)[:300],
+                                      s1=s1, s2=s2, settings=dict(dtwmon.settings_key(kw)))
+                        continue
+                    ctx.count("numpy_absent_bound_checks")
+                    if not oracle.close(got_lb, want_lb):
+                        ctx.violation("numpy-absent-result-differs", fn="dtw.lb_keogh", container=name, got=got_lb, reference=want_lb,
+                                      s1=s1, s2=s2, settings=dict(dtwmon.settings_key(kw)))
+                    if not oracle.close(got_ub, want_ub):
+                        ctx.violation("numpy-absent-result-differs", fn="dtw.ub_euclidean", container=name, got=got_ub, reference=want_ub,
+                                      s1=s1, s2=s2, settings=dict(dtwmon.settings_key(kw)))
             e1 = float(ed.distance(s1, s2))
             if not oracle.close(e1, oracle.ref_ed(s1, s2)):
                 ctx.violation("numpy-absent-result-differs", fn="ed.distance", got=e1, reference=oracle.ref_ed(s1, s2))
@@ -279,21 +303,29 @@ def run(ctx):
             m3 = np.array(sn, dtype=float)
             ncols = {"list_of_2d": [np.array(s, dtype=float) for s in sn], "3d_C": m3, "3d_F": np.asfortranarray(m3),
                      "list_of_2d_F": [np.asfortranarray(np.array(s, dtype=float)) for s in sn]}
+            kwnd = gen.rand_settings(rng, n0, n0, with_mld=False)
+            if not isinstance(kwnd.get("inner_dist", ""), str):
+                kwnd.pop("inner_dist")
+            ncols["tuple_of_2d"] = tuple(np.array(s, dtype=float) for s in sn)
+            ncols["SeriesContainer_3d"] = SeriesContainer.wrap(m3.copy())
+            refnd = None
             for eng in ("py", "c"):
                 base = None
                 for cname, data in ncols.items():
-                    ctx.current("ndim distance_matrix %s %s %r" % (eng, cname, sn))
+                    ctx.current("ndim distance_matrix %s %s %r %r" % (eng, cname, sn, kwnd))
                     try:
-                        v = list(dtw_ndim.distance_matrix(data, use_c=(eng == "c"), compact=True))
+                        v = list(dtw_ndim.distance_matrix(data, use_c=(eng == "c"), compact=True, **kwnd))
                     except Exception as e:
-                        ctx.violation("exception", fn="dtw_ndim.distance_matrix[%s]" % eng, container=cname, error=repr(e)[:300], series=sn)
+                        ctx.violation("exception", fn="dtw_ndim.distance_matrix[%s]" % eng, container=cname, error=repr(e)[:300], series=sn,
+                                      settings=dict(dtwmon.settings_key(kwnd)))
                         continue
                     ctx.count("container_equivalence_checks")
                     if base is None:
                         base = (cname, v)
                     elif not same(v, base[1], ctx):
                         ctx.violation("container-dependent-result", fn="dtw_ndim.distance_matrix[%s]" % eng, container=cname,
-                                      reference_container=base[0], got=v, want=base[1], series=sn)
+                                      reference_container=base[0], got=v, want=base[1], series=sn,
+                                      settings=dict(dtwmon.settings_key(kwnd)))
         # multivariate single pairs over memory layouts
         if it % 3 == 1:
             nd = rng.randint(2, 3)
